@@ -38,9 +38,12 @@ PROFILES = {
     "C07": dict(gen=dict(docs=0.0, infer_returns=0.5), options=[dict()]),
     "C10": dict(gen=dict(private_rate=0.3), options=[dict(), dict(convert=True)]),
     "C11": dict(gen=dict(), options=[dict()]),
-    "C12": dict(gen=dict(private_rate=0.3), options=[dict()]),
+    "C12": dict(gen=dict(private_rate=0.3, ties=0.4), options=[dict()]),
     "C13": dict(gen=dict(docs=1.0, reexports=False), options=[dict()]),
     "C20": dict(gen=dict(docs=0.0), options=[dict()]),
+    "C14": dict(gen=dict(docs=1.0, doc_types="mixed", infer_returns=0.1), styles=["numpydoc", "google", "rest"],
+                options=[dict(tsp=p, tsw=w) for p in ("CODE", "DOCSTRING") for w in ("WARN", "IGNORE")]),
+    "C17": dict(gen=dict(private_rate=0.45, docs=0.0), options=[dict()]),
 }
 
 
@@ -49,7 +52,7 @@ def one_case(task):
     prof = PROFILES.get(prop, PROFILES["default"])
     rng = random.Random(seed)
     gen_kw = dict(prof["gen"])
-    style = gen_kw.pop("style", None) or rng.choice(["plaintext", "numpydoc", "google", "rest"])
+    style = gen_kw.pop("style", None) or rng.choice(prof.get("styles", ["plaintext", "numpydoc", "google", "rest"]))
     g = pkggen.PkgGen(rng, style=style, **gen_kw)
     pkg = g.package()
     files = pkggen.render(pkg)
@@ -57,17 +60,21 @@ def one_case(task):
     out = {"seed": seed, "fails": [], "outcomes": [], "n_files": 0, "n_decls": 0, "style": style, "sample": None}
     try:
         e2e.write_pkg(files, top / "src")
+        runs = []
         for k, o in enumerate(prof["options"]):
             opts = {"style": style, **o}
             res = e2e.run_tool(_impl(), top / "src" / pkg["root"], top / f"out{k}", **opts)
             out["outcomes"].append(res["outcome"] if res["outcome"] != "exc" else f"{res['exc']}@{res['site']}")
             out["n_files"] += len(res["files"])
+            runs.append((opts, res))
             fails = oracles_e2e.check_all(prop, pkg, opts, res)
             for p, what, extra in fails[:8]:
                 out["fails"].append((p, what, {"stage": "S-E", "seed": seed, "options": opts, **extra}))
             if out["sample"] is None:
                 out["sample"] = {"seed": seed, "options": opts, "modules": [m["qname"] for m in pkg["modules"]],
                                  "stub_files": sorted(p for p in res["files"] if p.endswith(".sdsstub"))[:6]}
+        for p, what, extra in oracles_e2e.check_cross(prop, pkg, runs)[:4]:
+            out["fails"].append((p, what, {"stage": "S-E", "seed": seed, **extra}))
         out["n_decls"] = sum(len(m["functions"]) + len(m["classes"]) + len(m["enums"]) for m in pkg["modules"])
         out["sources"] = files if out["fails"] else None
     finally:
